@@ -1478,6 +1478,11 @@ func (interp *Interpreter) cfg(root *node, sc *scope, importPath, pkgName string
 					c0 = n.child[0]
 				}
 
+				if c0.typ == nil || !isFunc(c0.typ) {
+					err = c0.cfgErrorf("invalid operation: cannot call non-function %s", c0.ident)
+					break
+				}
+
 				err = check.arguments(n, n.child[1:], c0, n.action == aCallSlice)
 				if err != nil {
 					break
